@@ -626,50 +626,30 @@ func (n *BlockNode) Release() {
 
 // Render renders the block node
 func (n *BlockNode) Render(w io.Writer, ctx *RenderContext) error {
-	// Determine which content to use - from context blocks or default
-	var content []Node
-
-	// Store the current block content as parent content if needed
-	// This is critical for multi-level inheritance
-	if _, exists := ctx.parentBlocks[n.name]; !exists {
-		// First time we've seen this block - store its original content
-		// This needs to happen for any block, not just in extending templates
-		if blockContent, ok := ctx.blocks[n.name]; ok && len(blockContent) > 0 {
-			// Store the content from blocks
-			ctx.parentBlocks[n.name] = blockContent
-		} else {
-			// Otherwise store the default body
-			ctx.parentBlocks[n.name] = n.body
-		}
+	// The definitions of this block along the extends chain, most derived first,
+	// were collected while the child templates were processed. The body written
+	// here, where the block stands, is the last definition of that chain.
+	content := n.body
+	if chain := ctx.blockChain[n.name]; len(chain) > 0 {
+		// An override is used even if its body is empty
+		content = chain[0]
 	}
 
-	// Now get the content to render
-	if blockContent, ok := ctx.blocks[n.name]; ok && len(blockContent) > 0 {
-		content = blockContent
-	} else {
-		// Otherwise, use the default content from this block node
-		content = n.body
-	}
-
-	// Save the current block for parent() function support
-	previousBlock := ctx.currentBlock
-	ctx.currentBlock = n
-
-	// Create an isolated context for rendering this block
-	// This prevents parent() from accessing the wrong block context
-	blockCtx := ctx
+	// Save the current block and level for parent() function support
+	previousBlock, previousLevel := ctx.currentBlock, ctx.blockLevel
+	ctx.currentBlock, ctx.blockLevel = n, 0
 
 	// Render the appropriate content
+	var err error
 	for _, node := range content {
-		err := node.Render(w, blockCtx)
-		if err != nil {
-			return err
+		if err = node.Render(w, ctx); err != nil {
+			break
 		}
 	}
 
 	// Restore the previous block
-	ctx.currentBlock = previousBlock
-	return nil
+	ctx.currentBlock, ctx.blockLevel = previousBlock, previousLevel
+	return err
 }
 
 // ExtendsNode represents an extends directive
@@ -753,32 +733,9 @@ func (n *ExtendsNode) Render(w io.Writer, ctx *RenderContext) error {
 	// Ensure the context is released even if an error occurs
 	defer parentCtx.Release()
 
-	// First, copy any existing parent blocks to maintain the inheritance chain
-	// This allows for multi-level parent() calls to work properly
-	for name, nodes := range ctx.parentBlocks {
-		// Copy to the new context to preserve the inheritance chain
-		parentCtx.parentBlocks[name] = nodes
-	}
-
-	// Extract blocks from the parent template and store them as parent blocks
-	// for any blocks defined in the child but not yet in the parent chain
-	if rootNode, ok := parentTemplate.nodes.(*RootNode); ok {
-		for _, child := range rootNode.Children() {
-			if block, ok := child.(*BlockNode); ok {
-				// If we don't already have a parent for this block,
-				// use the parent template's block definition
-				if _, exists := parentCtx.parentBlocks[block.name]; !exists {
-					parentCtx.parentBlocks[block.name] = block.body
-				}
-			}
-		}
-	}
-
-	// Finally, copy all block definitions from the child context
-	// These are the blocks that will actually be rendered
-	for name, nodes := range ctx.blocks {
-		parentCtx.blocks[name] = nodes
-	}
+	// The parent template continues the chain of block definitions collected so
+	// far (this template's blocks and those of the templates extending it)
+	parentCtx.blockChain = ctx.blockChain
 
 	// Render the parent template with the updated context
 	return parentTemplate.nodes.Render(w, parentCtx)
@@ -1517,35 +1474,24 @@ func (n *ApplyNode) Render(w io.Writer, ctx *RenderContext) error {
 
 // Implement Node interface for RootNode
 func (n *RootNode) Render(w io.Writer, ctx *RenderContext) error {
-	// First pass: collect blocks and check for extends
+	// First pass: look for an extends directive
 	var extendsNode *ExtendsNode
-	var hasChildBlocks bool
-
-	// Check if this is being rendered as a parent template (ctx.extending is true)
-	// In that case, we should NOT override block definitions
-	if ctx.extending {
-		hasChildBlocks = true
-	}
-
-	// First register all blocks in this template before processing extends
-	// Needed to ensure all blocks are available for parent() calls
 	for _, child := range n.children {
-		if block, ok := child.(*BlockNode); ok {
-			// Only register blocks that haven't been defined by a child template
-			if !hasChildBlocks || ctx.blocks[block.name] == nil {
-				// Register the block
-				ctx.blocks[block.name] = block.body
-			}
-		} else if ext, ok := child.(*ExtendsNode); ok {
-			// If this is an extends node, record it for later
+		if ext, ok := child.(*ExtendsNode); ok {
 			extendsNode = ext
 		}
 	}
 
-	// If this template extends another, handle that first
+	// A template that extends another contributes its top-level blocks as
+	// definitions to the inheritance chain (after those of the templates that
+	// extend it, which were processed before) and renders nothing itself: the
+	// extends node renders the parent template with that chain
 	if extendsNode != nil {
-		// Let the extends node handle the rendering, passing along
-		// all our blocks so they're available to the parent template
+		for _, child := range n.children {
+			if block, ok := child.(*BlockNode); ok {
+				ctx.addBlockDefinition(block.name, block.body)
+			}
+		}
 		return extendsNode.Render(w, ctx)
 	}
 
